@@ -363,15 +363,28 @@ Proof.
         intros; discriminate.
 Qed.
 
-Lemma readLitDistLens_av : forall s hdist hlit cl s' err,
+(* readLitDistLens with its fuel generalised.  Kernel pitfall: never unfold readLitDistLens in
+   a hypothesis (at Qed the kernel would compare it with its body by reducing rl_loop on
+   small_fuel); unfolding in the goal is harmless, and the instance of this lemma is then
+   syntactically the goal. *)
+Lemma readLitDistLens_gen : forall fuel s hdist hlit cl,
   br_wf (rd s) -> hlit <= 29 -> hdist <= 29 ->
   clc_tab_ok cl (clcShort (dyn s)) (clcLong (dyn s)) -> Forall (fun y => (y <= 7)%nat) cl ->
-  readLitDistLens s hdist hlit = (s', err) -> err = ENone \/ err = EEndInput ->
+  forall s' err,
+  (let d := dyn s in
+   let endv := Z.of_N (litLen + hdist + 1) in
+   let split := Z.of_N (litTableSize + hlit) in
+   let st0 := mkRL (rd s) (litAndDistHuff d) (litCount d) (distCount d) (litExpandCount d)
+                   0%Z (-1)%Z false in
+   let '(st, err) := rl_loop fuel (clcShort d) (clcLong d) split endv st0 in
+   (set_rd (set_dyn s (set_dyn_counts d (rl_h st) (rl_lc st) (rl_dc st) (rl_ex st))) (rl_b st), err))
+  = (s', err) ->
+  err = ENone \/ err = EEndInput ->
   br_wf (rd s') /\ (avail (rd s) - avail (rd s') <= 2219)%Z /\
   (err = EEndInput -> (r_len (rd s') < 0)%Z).
 Proof.
-  intros s hdist hlit cl s' err Hwf Hl Hd Hok HF H Herr.
-  unfold readLitDistLens in H.
+  intros fuel s hdist hlit cl Hwf Hl Hd Hok HF s' err H Herr.
+  cbn zeta in H.
   match type of H with
   | (let '(st, err) := rl_loop ?f ?cs ?cg ?sp ?en ?st0 in _) = _ =>
     pose proof (rl_loop_av cl cs cg sp en Hok HF ltac:(unfold litTableSize; lia)
@@ -381,8 +394,112 @@ Proof.
   apply pair_inj in H. destruct H as [<- <-].
   specialize (P st e Hwf eq_refl Herr). destruct P as (P1 & P2 & P3).
   cbn [rd set_rd]. cbn [rl_b] in P2. unfold npos, budget in P2. cbn [rl_inDist rl_curr] in P2.
-  change (316 <=? 0)%Z with false in P2.
+  change (316 <=? 0)%Z with false in P2. cbn iota in P2.
   split; [exact P1|]. split; [lia|exact P3].
+Qed.
+
+Lemma readLitDistLens_av : forall s hdist hlit cl,
+  br_wf (rd s) -> hlit <= 29 -> hdist <= 29 ->
+  clc_tab_ok cl (clcShort (dyn s)) (clcLong (dyn s)) -> Forall (fun y => (y <= 7)%nat) cl ->
+  forall s' err,
+  readLitDistLens s hdist hlit = (s', err) -> err = ENone \/ err = EEndInput ->
+  br_wf (rd s') /\ (avail (rd s) - avail (rd s') <= 2219)%Z /\
+  (err = EEndInput -> (r_len (rd s') < 0)%Z).
+Proof.
+  intros s hdist hlit cl Hwf Hl Hd Hok HF.
+  unfold readLitDistLens.
+  exact (readLitDistLens_gen small_fuel s hdist hlit cl Hwf Hl Hd Hok HF).
+Qed.
+
+(* ---------------------------------------------------------------- the table builders never
+   report EEndInput (as in EngineRefineGlueNeed.v; copied to keep this file independent) *)
+Lemma hb_iterN_inv : forall (S : Type) (P : S -> Prop) (f : N -> S -> S),
+  (forall i s, P s -> P (f i s)) -> forall n i s, P s -> P (iterN n i f s).
+Proof.
+  intros S P f Hf n. induction n as [|n IH]; intros i s Hs; cbn [iterN]; [exact Hs|].
+  apply IH. apply Hf. exact Hs.
+Qed.
+
+Ltac hb_brk1 :=
+  match goal with |- context [match ?x with _ => _ end] => destruct x end.
+
+Lemma hb_gen_small_not_end : forall hdr sh lg codes n count ms,
+  snd (gen_small hdr sh lg codes n count ms) <> EEndInput.
+Proof.
+  intros hdr sh lg codes n count ms. unfold gen_small. cbv zeta.
+  hb_brk1; [cbn [snd]; discriminate|].
+  hb_brk1. hb_brk1. hb_brk1; [cbn [snd]; discriminate|].
+  hb_brk1.
+  match goal with |- snd (match forN ?lo ?hi ?F ?init with _ => _ end) <> _ =>
+    assert (H : snd (forN lo hi F init) <> EEndInput) end.
+  { unfold forN. apply hb_iterN_inv; [|cbn [snd]; discriminate].
+    intros i [[[[sh1 lg1] cd1] lcl] pan] Hp. cbn [snd] in Hp.
+    repeat hb_brk1; cbn [snd]; first [exact Hp|discriminate]. }
+  repeat hb_brk1. cbn [snd] in *. exact H.
+Qed.
+
+Lemma hb_setAndExpand_not_end : forall d, snd (setAndExpandLitLenHuffCode d) <> EEndInput.
+Proof.
+  intros d. unfold setAndExpandLitLenHuffCode. cbv zeta.
+  repeat hb_brk1; cbn [snd]; discriminate.
+Qed.
+
+Lemma hb_pairs_loop_not_end : forall fuel short d length index1 iend,
+  snd (pairs_loop fuel short d length index1 iend) <> EEndInput.
+Proof.
+  induction fuel as [|f IH]; intros short d length index1 iend; cbn [pairs_loop].
+  - cbn [snd]. discriminate.
+  - repeat first [apply IH | hb_brk1]; cbn [snd]; discriminate.
+Qed.
+
+Lemma hb_encodePairs_not_end : forall short d length minLen,
+  snd (encodePairs short d length minLen) <> EEndInput.
+Proof. intros. unfold encodePairs. apply hb_pairs_loop_not_end. Qed.
+
+Lemma hb_triples_loop2_not_end : forall fuel short d length sym1 sym1Len sym1Code index2 iend2,
+  snd (triples_loop2 fuel short d length sym1 sym1Len sym1Code index2 iend2) <> EEndInput.
+Proof.
+  induction fuel as [|f IH]; intros short d length sym1 sym1Len sym1Code index2 iend2;
+    cbn [triples_loop2].
+  - cbn [snd]. discriminate.
+  - repeat first [apply IH | hb_brk1]; cbn [snd]; discriminate.
+Qed.
+
+Lemma hb_triples_loop1_not_end : forall fuel short d length minLen index1 iend1,
+  snd (triples_loop1 fuel short d length minLen index1 iend1) <> EEndInput.
+Proof.
+  induction fuel as [|f IH]; intros short d length minLen index1 iend1; cbn [triples_loop1].
+  - cbn [snd]. discriminate.
+  - repeat first
+      [ apply IH
+      | match goal with
+        | |- context [match triples_loop2 ?a ?b ?c ?d ?e ?f ?g ?h ?i with _ => _ end] =>
+          pose proof (hb_triples_loop2_not_end a b c d e f g h i);
+          destruct (triples_loop2 a b c d e f g h i)
+        end
+      | hb_brk1 ]; cbn [snd] in *; first [assumption|discriminate].
+Qed.
+
+Lemma hb_encodeTriples_not_end : forall short d length minLen,
+  snd (encodeTriples short d length minLen) <> EEndInput.
+Proof. intros. unfold encodeTriples. apply hb_triples_loop1_not_end. Qed.
+
+Lemma hb_genForLitLen_not_end : forall sh lg d ms, snd (genForLitLen sh lg d ms) <> EEndInput.
+Proof.
+  intros sh lg d ms. unfold genForLitLen. cbv zeta.
+  hb_brk1; [cbn [snd]; discriminate|].
+  match goal with |- snd (match forN ?lo ?hi ?F ?init with _ => _ end) <> _ =>
+    assert (H : snd (forN lo hi F init) <> EEndInput) end.
+  { unfold forN. apply hb_iterN_inv; [|cbn [snd]; discriminate].
+    intros i [[t cs] err] Hp. cbn [snd] in Hp.
+    repeat match goal with
+      | |- context [match encodePairs ?a ?b ?c ?d with _ => _ end] =>
+        pose proof (hb_encodePairs_not_end a b c d); destruct (encodePairs a b c d)
+      | |- context [match encodeTriples ?a ?b ?c ?d with _ => _ end] =>
+        pose proof (hb_encodeTriples_not_end a b c d); destruct (encodeTriples a b c d)
+      | |- context [match ?x with _ => _ end] => destruct x
+      end; cbn [snd] in *; first [assumption|discriminate]. }
+  repeat hb_brk1; cbn [snd] in *; first [assumption|discriminate].
 Qed.
 
 (* ---------------------------------------------------------------- setupDynamicHeader *)
@@ -435,26 +552,90 @@ Proof.
   assert (He6 : e6 = ENone \/ e6 = EEndInput).
   { destruct e6; try (apply pair_inj in H; destruct H as [_ H]; discriminate);
       [left|right]; reflexivity. }
-  destruct (readLitDistLens_av s5 hdist hlit cl s6 e6 C1 Hhl Hhd Hok HF ER He6) as (R1 & R2 & R3).
+  destruct (readLitDistLens_av s5 hdist hlit cl C1 Hhl Hhd Hok HF s6 e6 ER He6) as (R1 & R2 & R3).
   assert (Hneg : (r_len (rd s6) < 0)%Z).
   { destruct He6 as [-> | ->]; [|apply R3; reflexivity].
     destruct (Z.ltb_spec (r_len (rd s6)) 0) as [Hn|Hn]; [exact Hn|]. exfalso.
     (* the table building never reports EEndInput *)
     clear - H.
-    destruct (setCodes (litAndDistHuff (dyn s6)) litLen distLen (distCount (dyn s6))) as [huff bad].
-    destruct bad; [apply pair_inj in H; destruct H as [_ H]; discriminate|].
-    match type of H with
-    | (let '(dsh, dlg, codes, gerr) := ?g in _) = _ => destruct g as [[[dsh dlg] codes] gerr]
-    end.
-    destruct gerr; cbn [ierr_eqb negb] in H;
-      try (apply pair_inj in H; destruct H as [_ H]; discriminate).
-    all: match type of H with
-    | (let '(d, err) := ?g in _) = _ => destruct g as [d7 e7]
-    end.
-    all: destruct e7; try (apply pair_inj in H; destruct H as [_ H]; discriminate).
-    all: match type of H with
-    | (let '(lsh, llg, d, err) := ?g in _) = _ => destruct g as [[[lsh llg] d8] e8]
-    end.
-    all: destruct e8; apply pair_inj in H; destruct H as [_ H]; discriminate. }
+    repeat match type of H with
+      | context [match gen_small ?a ?b ?c ?d ?e ?f ?g with _ => _ end] =>
+        pose proof (hb_gen_small_not_end a b c d e f g); destruct (gen_small a b c d e f g)
+      | context [match setAndExpandLitLenHuffCode ?a with _ => _ end] =>
+        pose proof (hb_setAndExpand_not_end a); destruct (setAndExpandLitLenHuffCode a)
+      | context [match genForLitLen ?a ?b ?c ?d with _ => _ end] =>
+        pose proof (hb_genForLitLen_not_end a b c d); destruct (genForLitLen a b c d)
+      | context [match ?x with _ => _ end] => destruct x
+      end;
+      cbn [snd] in *; apply pair_inj in H; destruct H as [_ H];
+      first [discriminate | congruence]. }
   pose proof (avail_neg _ R1 Hneg). lia.
 Qed.
+
+(* ---------------------------------------------------------------- stored blocks *)
+Lemma prepareForLitBlock_av : forall s s',
+  br_wf (rd s) -> prepareForLitBlock s = (s', EEndInput) -> (avail (rd s) < 32)%Z.
+Proof.
+  intros s s' Hwf H. unfold prepareForLitBlock, loadBits in H.
+  destruct (load_lt57_av (rd s) Hwf) as (b1 & L1 & L2 & L3 & L4 & L5).
+  rewrite L1 in H. cbn [rd set_rd] in H.
+  destruct (Z.ltb_spec (r_len b1) 0) as [Hn|Hn].
+  { apply pair_inj in H. destruct H as [_ H]. discriminate. }
+  cbn zeta in H.
+  assert (Hu8 : u8 (Z.to_N (r_len b1) / 8) = Z.to_N (r_len b1) / 8).
+  { unfold u8. change 255 with (N.ones 8). rewrite N.land_ones. apply N.mod_small.
+    destruct L2 as (_ & W2 & _). change (2 ^ 8) with 256.
+    apply N.div_lt_upper_bound; lia. }
+  rewrite Hu8 in H.
+  destruct (N.ltb_spec (Z.to_N (r_len b1) / 8) 4) as [H4|H4].
+  - assert (Hlt : (r_len b1 < 32)%Z).
+    { pose proof (N.div_mod (Z.to_N (r_len b1)) 8 ltac:(lia)) as Hdm.
+      pose proof (N.mod_lt (Z.to_N (r_len b1)) 8 ltac:(lia)) as Hml. lia. }
+    destruct L4 as [L4|L4]; [|lia]. rewrite <- L3, (avail_exhausted b1 L4). exact Hlt.
+  - exfalso.
+    match type of H with
+    | (if ?c then _ else _) = _ => destruct c
+    end; apply pair_inj in H; destruct H as [_ H]; discriminate.
+Qed.
+
+(* ---------------------------------------------------------------- tryDecodeHeader *)
+Lemma tryDecodeHeader_av : forall s s',
+  br_wf (rd s) -> tryDecodeHeader s = (s', EEndInput) -> (avail (rd s) < 2293)%Z.
+Proof.
+  intros s s' Hwf H. unfold tryDecodeHeader in H.
+  destruct (readBits s 1) as [[bf s1]|] eqn:E1.
+  2:{ apply pair_inj in H. destruct H as [_ H]. discriminate. }
+  destruct (readBits_av s 1 bf s1 Hwf ltac:(lia) E1) as (W1 & A1 & _).
+  cbn zeta in H.
+  destruct (readBits (set_bfinal s1 bf) 2) as [[bt s2]|] eqn:E2.
+  2:{ apply pair_inj in H. destruct H as [_ H]. discriminate. }
+  destruct (readBits_av (set_bfinal s1 bf) 2 bt s2 W1 ltac:(lia) E2) as (W2 & A2 & _).
+  cbn [rd set_bfinal] in A2.
+  assert (A : avail (rd s) = (avail (rd s2) + 3)%Z) by lia.
+  destruct (Z.ltb_spec (r_len (rd s2)) 0) as [Hn|Hn].
+  { pose proof (avail_neg _ W2 Hn). lia. }
+  destruct (bt =? 0).
+  { pose proof (prepareForLitBlock_av s2 s' W2 H). lia. }
+  destruct (bt =? 1).
+  { apply pair_inj in H. destruct H as [_ H]. discriminate. }
+  destruct (bt =? 2).
+  { pose proof (setupDynamicHeader_av s2 s' W2 H). lia. }
+  apply pair_inj in H. destruct H as [_ H]. discriminate.
+Qed.
+
+(* the input was at most 286 bytes *)
+Theorem header_bound_286 :
+  forall s s', br_wf (rd s) -> (0 <= r_len (rd s))%Z ->
+    tryDecodeHeader s = (s', EEndInput) -> r_inlen (rd s) <= 286.
+Proof.
+  intros s s' Hwf H0 H. pose proof (tryDecodeHeader_av s s' Hwf H) as A.
+  rewrite (avail_inlen _ Hwf) in A. lia.
+Qed.
+
+Theorem header_bound : header_bound_statement.
+Proof.
+  intros s s' Hwf H0 H. pose proof (header_bound_286 s s' Hwf H0 H). lia.
+Qed.
+
+Print Assumptions header_bound.
+Print Assumptions header_bound_286.
